@@ -60,7 +60,10 @@ func OASCheck(oas, cat *ON) *Violation {
 	}
 	if ut := cat.Get("userTypes"); ut != nil {
 		for _, name := range ut.Keys {
-			if comps.Get(strings.TrimPrefix(name, "@")) == nil {
+			// the component is named like the type without its first character, the '@'; the builder also accepts type
+			// names that do not begin with '@' ("TYPE [@a]", nothing can refer to such a type): there the exporter's
+			// component "@a]" is a component for that type all the same
+			if comps.Get(strings.TrimPrefix(name, "@")) == nil && (name == "" || comps.Get(name[1:]) == nil) {
 				return V("c17:usertype-not-component", "user type %s is not in components.schemas", name)
 			}
 		}
